@@ -50,6 +50,7 @@ def writer_cases(draw):
     segs = []  # (start, length)
     nseg = d.int(1, 5)
     fault = d.pct() < 25
+    cont = d.pct() < 50   # after a refused add_segment the caller goes on using the writer (the refused call must have had no effect)
     fault_at = d.int(0, nseg - 1) if fault else -1
     fault_kind = d.choice(['odd-data-length', 'data-outside-pool', 'word-too-big', 'word-negative', 'start-out-of-u64',
                            'length-out-of-u64', 'negative-start', 'odd-start', 'odd-length', 'overlap', 'zero-length',
@@ -184,9 +185,18 @@ def writer_cases(draw):
         ops.append(['segment', a, length, ds, sdl, this_fault or ''])
         if this_fault is None or this_fault == 'data-overlap':
             segs.append((a, length))
+        elif cont and this_fault in ('overlap', 'odd-start', 'odd-length', 'zero-length', 'start-out-of-u64', 'negative-start') and sdl >= 2 and ds + sdl <= pool_len:
+            # the caller retries the refused request at a free address with the same data range
+            rl = sdl + d.choice([0, 0, 2, 1000])
+            for _ in range(8):
+                a2 = d.choice(anchors) & ~1
+                if 0 <= a2 and a2 + rl <= U64 and all(a2 + rl <= s_ or s_ + l_ <= a2 for s_, l_ in segs):
+                    ops.append(['segment', a2, rl, ds, sdl, 'retry'])
+                    segs.append((a2, rl))
+                    break
     if d.pct() < 15:
         ops.append(['data', [word_value(d, w, 0) for _ in range(d.int(1, 5))]])  # unreferenced trailing data
-    return {'kind': 'writer', 'w': w, 'preset': d.int(0, 9), 'ops': ops}
+    return {'kind': 'writer', 'w': w, 'preset': d.int(0, 9), 'ops': ops, 'continue_after_reject': cont}
 
 
 SMALL_PROGRAMS = [
@@ -240,6 +250,7 @@ def model(case, version):
     pool = []
     segs = []
     reject = None
+    rej = set()
     for idx, op in enumerate(case['ops']):
         if op[0] == 'data':
             if any((not isinstance(x, int)) or x < 0 or x >= (1 << w) for x in op[1]):
@@ -275,9 +286,11 @@ def model(case, version):
         if why:
             if reject is None:
                 reject = (idx, why)
+            if op[0] == 'segment':
+                rej.add(idx)
             continue
         segs.append((a_, l_, ds_, dl_))
-    return pool, segs, reject
+    return pool, segs, reject, rej
 
 
 def reader_value(reader, wa):
@@ -380,7 +393,7 @@ def run_writer_case(case):
     cl = ['w=%d' % w, 'family=writer']
     nontrivial = False
     for version in (0, 1, 2, 3):
-        pool, segs, reject = model(case, version)
+        pool, segs, reject, rej = model(case, version)
         path = engines.tmpdir() / ('c06_v%d.fjm' % version)
         if os.path.exists(path):
             os.unlink(path)
@@ -388,6 +401,9 @@ def run_writer_case(case):
         wr = fjm_writer.Writer(path, w, FJMVersion(version), **kw)
         raised = None
         raised_at = None
+        cont = bool(case.get('continue_after_reject'))
+        data_rejects = reject is not None and reject[0] not in rej   # a refused data / simple op ends the sequence
+        continued = set()
         for idx, op in enumerate(case['ops'] + [['write']]):
             try:
                 if op[0] == 'data':
@@ -399,12 +415,20 @@ def run_writer_case(case):
                 else:
                     wr.write_to_file()
             except FlipJumpWriteFjmException as e:
+                if cont and not data_rejects and idx in rej:
+                    continued.add(idx)
+                    continue
                 raised, raised_at = e, idx
                 break
             except Exception as e:  # raw exception
                 why = reject[1] if reject else 'none'
                 return Violation('c06:writer-raw-exception:%s:%s' % (type(e).__name__, why.replace(' ', '-')),
                                  {'version': version, 'at_op': idx, 'op': str(op)[:200], 'exc': repr(e), 'model_reject': reject}, cl)
+        if reject is not None and cont and not data_rejects and raised is None and continued == rej:
+            # every refused add_segment raised, the caller went on: the file must hold exactly the accepted requests
+            cl.append('unrepresentable:' + reject[1])
+            cl.append('writer used after a refused request')
+            reject = None
         if reject is not None:
             cl.append('unrepresentable:' + reject[1])
             if raised is None:
